@@ -76,7 +76,7 @@ class Report:
         the tree the rule was confirmed on; the purpose is to notice a rule that went (nearly)
         vacuous -- a renamed anchor, a changed MIR shape -- not to freeze the code: a rewrite of
         one function legitimately moves a count by a few.  So the check breaks when the count
-        falls below 70 % of the recorded one (and always when it reaches zero)."""
+        falls below a third of the recorded one (and always when it reaches zero)."""
         s.floor_counts[name] = count
         key = s.rule + "." + name
         if s._record is not None:
@@ -85,8 +85,8 @@ class Report:
         want = s._floors.get(key)
         if want is None:
             s.broken.append("no floor recorded for %s (count now %d)" % (key, count))
-        elif count < max(1 if want > 0 else 0, (want * 7) // 10):
-            s.broken.append("instance count below floor: %s = %d < 70%% of %d" % (key, count, want))
+        elif count < max(1 if want > 0 else 0, (want + 2) // 3):
+            s.broken.append("instance count below floor: %s = %d < a third of %d" % (key, count, want))
 
 
 class Ctx:
